@@ -35,3 +35,35 @@ Fixpoint mismatches_from {A} (ok : A -> bool) (i : N) (l : list A) : list N :=
   | c :: l' => if ok c then mismatches_from ok (i + 1) l' else i :: mismatches_from ok (i + 1) l'
   end.
 Definition mismatches {A} (ok : A -> bool) (l : list A) : list N := mismatches_from ok 0 l.
+
+(* several epochs (DTLS 1.3 key updates): one window per epoch *)
+Fixpoint get_w (W : nat) (e : N) (ws : list (N * win)) : win :=
+  match ws with [] => win_init W | (e', w) :: ws' => if e =? e' then w else get_w W e ws' end.
+Fixpoint set_w (e : N) (w : win) (ws : list (N * win)) : list (N * win) :=
+  match ws with
+  | [] => [(e, w)]
+  | (e', w') :: ws' => if e =? e' then (e, w) :: ws' else (e', w') :: set_w e w ws'
+  end.
+Fixpoint verdicts_ep (W : nat) (maxseq : N) (ws : list (N * win)) (xs : list (N * N)) : list bool :=
+  match xs with
+  | [] => []
+  | (e, q) :: xs' =>
+      let w := get_w W e ws in
+      if check maxseq w q
+      then true :: verdicts_ep W maxseq (set_w e (fst (accept maxseq w q)) ws) xs'
+      else false :: verdicts_ep W maxseq ws xs'
+  end.
+Fixpoint preload (W : nat) (maxseq : N) (ws : list (N * win)) (xs : list (N * N)) : list (N * win) :=
+  match xs with
+  | [] => ws
+  | (e, q) :: xs' =>
+      let w := get_w W e ws in
+      preload W maxseq (if check maxseq w q then set_w e (fst (accept maxseq w q)) ws else ws) xs'
+  end.
+Definition e2e_ep_case := (nat * list (N * N) * list (N * N) * list bool)%type.
+Definition e2e_ep_ok (c : e2e_ep_case) : bool :=
+  let '(W0, pre, arr, obs) := c in
+  let W := eff_window W0 in
+  let maxseq := 18446744073709551615 in
+  let v := verdicts_ep W maxseq (preload W maxseq [] pre) arr in
+  if list_eq_dec Bool.bool_dec v obs then true else false.
